@@ -1,6 +1,7 @@
 /-
   Lemmas for C06, third part: the handshake, the requests and the close of the model client
-  against a peer that relays the reference BMC — assembled from the single exchanges of
+  against a peer that relays the reference BMC (possibly losing datagrams) — the retry loop of one
+  request, then the steps of the life cycle assembled from the single attempts of
   `Lemmas/SessionBmc.lean`.
 -/
 import PyIpmi.Lemmas.SessionBmc
@@ -30,221 +31,441 @@ theorem decode_setPriv (x : Nat) : decodeRsp setPrivRspWidths [0, x] = .ok [[x]]
 theorem decode_close : decodeRsp closeRspWidths [0] = .ok [] := by
   simp [decodeRsp, closeRspWidths, splitWidths, ccOk]
 
-theorem decode_cc (w : List Nat) (cc : Nat) (rest : List Nat) (h : cc ≠ 0) :
-    decodeRsp w (cc :: rest) = .ccError cc := by
-  simp [decodeRsp, ccOk, h]
+theorem exchange_eq {σ : Type} (md5 : List Nat → List Nat) (P : σ → List Nat → σ × Option (List Nat)) (cfg : Cfg)
+    (s : σ) (c : Client) (cmd : Nat) (data : List Nat) :
+    exchange md5 P cfg s c 6 0 cmd data =
+      tryLoop md5 P cfg (hdrOf cfg c cmd) (ipmbEncode (hdrOf cfg c cmd) data) (cfg.maxRetries + 1) s
+        { c with rqSeq := (c.rqSeq + 1) % 64 } := rfl
 
-/-! ### the handshake, step by step, against a peer that relays the BMC -/
+theorem seqAfter_lt (n s : Nat) (h : s < 4294967296) : seqAfter n s < 4294967296 := by
+  induction n generalizing s with
+  | zero => exact h
+  | succ n ih => exact ih _ (nextSeq_lt _ h)
+
+theorem seqAfter_add (m n s : Nat) : seqAfter (m + n) s = seqAfter n (seqAfter m s) := by
+  induction m generalizing s with
+  | zero => simp [seqAfter]
+  | succ m ih => rw [Nat.succ_add]; simp only [seqAfter]; exact ih _
+
+/-! ### the retry loop of one request -/
 
 section stages
 variable {σ : Type} {md5 : List Nat → List Nat} (hmd5 : ∀ x, (md5 x).length = 16) {b : BmcCfg} {cfg : Cfg}
-  (conf : Conforming b cfg) {P : σ → List Nat → σ × Option (List Nat)} {π : σ → BmcState}
-  (ht : Tracks md5 b P π)
-include hmd5 conf ht
+  (conf : Conforming b cfg) {P : σ → List Nat → σ × Option (List Nat)} {π : σ → BmcState} {lostAt : σ → Bool}
+  (rel : Relay md5 b P π lostAt)
 
-theorem run_authCap (s : σ) (c : Client) (hans : Answers md5 b P π s) (hph : (π s).phase = .pinged)
-    (hat : c.attached = false) :
-    ∃ d p, parseLan d = some p ∧ p.auth = 0 ∧ p.sid = 0 ∧ p.seq = 0 ∧
-      parseIpmiReq p.payload = some (reqOf (hdrOf cfg c 56) [0x0e, cfg.priv % 16]) ∧
-      (step md5 b (π s) d).2.isReply = true ∧
-      π (P s d).1 = { π s with phase := .capsSent } ∧
+include rel in
+/-- Before the session is active a lost attempt leaves the BMC where it was: `k` losses, then the
+answer — `k + 1` datagrams, every one of them `Good`. -/
+theorem loop_static (h : ReqHdr) (sdu pl : List Nat) (st st' : BmcState) (CI : Client → Prop)
+    (Good : List Nat → Prop)
+    (hfact : ∀ c, CI c → ∃ d r c', packStep md5 c sdu = (c', .ok d) ∧ CI c' ∧ Good d ∧
+      step md5 b st d = (st', .reply r) ∧ stepLost md5 b st d = (st, .reply r) ∧ rxStep cfg h (some r) = .ok pl)
+    (Q : σ → Prop) (k : Nat) :
+    ∀ (fuel : Nat) (s : σ) (c : Client), k < fuel → π s = st → CI c → LossRun P lostAt Q k s →
+      ∃ ds s' c', tryLoop md5 P cfg h sdu fuel s c = (s', c', ds, .ok pl) ∧ ds.length = k + 1 ∧
+        (∀ d ∈ ds, Good d) ∧ CI c' ∧ π s' = st' ∧ Q s' := by
+  induction k with
+  | zero =>
+    intro fuel s c hf hs hc hl
+    obtain ⟨n, rfl⟩ : ∃ n, fuel = n + 1 := ⟨fuel - 1, by omega⟩
+    obtain ⟨d, r, c', h1, h2, h3, h4, _, h6⟩ := hfact c hc
+    obtain ⟨r1, r2⟩ := relay_reply rel s hl.1 d r st' (by rw [hs]; exact h4)
+    refine ⟨[d], (P s d).1, c', tryLoop_answered md5 P cfg h sdu n s c c' d pl h1 (by rw [r2]; exact h6), rfl, ?_, h2,
+      r1, hl.2 d⟩
+    intro x hx; simp at hx; subst hx; exact h3
+  | succ k ih =>
+    intro fuel s c hf hs hc hl
+    obtain ⟨n, rfl⟩ : ∃ n, fuel = n + 1 := ⟨fuel - 1, by omega⟩
+    obtain ⟨d, r, c', h1, h2, h3, _, h5, _⟩ := hfact c hc
+    obtain ⟨r1, r2⟩ := relay_lost rel s hl.1 d r st (by rw [hs]; exact h5)
+    obtain ⟨ds, s', c'', i1, i2, i3, i4, i5, i6⟩ := ih n (P s d).1 c' (by omega) r1 h2 (hl.2 d)
+    refine ⟨d :: ds, s', c'', ?_, by simp [i2], ?_, i4, i5, i6⟩
+    · rw [tryLoop_lost md5 P cfg h sdu n s c c' d h1 r2, i1]
+    · intro x hx
+      rcases List.mem_cons.mp hx with e | e
+      · subst e; exact h3
+      · exact i3 x e
+
+include hmd5 conf rel in
+/-- Inside the session every attempt, lost or not, takes the next sequence number: `k` losses,
+then the answer — `k + 1` datagrams forming a chain. -/
+theorem loop_session (h : ReqHdr) (cmd : Nat) (data rdata : List Nat) (ph : Nat → Phase) (a : Nat)
+    (hh : BmcHdr h cmd) (ha : a = 0 ∨ a = 4 ∨ a = 2) (hlen : data.length + 7 ≤ 255) (hcmd : cmd ≠ 52)
+    (hin : ∀ st seq, inSession md5 b st a seq (reqOf h data) =
+      ({ st with phase := ph seq, outSeq := nextSeq st.outSeq },
+       .reply (lanPacket md5 a b.pw b.sid st.outSeq (ipmiRsp (reqOf h data) 0 rdata))))
+    (Q : σ → Prop) (k : Nat) :
+    ∀ (fuel : Nat) (s : σ) (c : Client) (last : Option Nat), k < fuel → Live b cfg a last (π s) c →
+      LossRun P lostAt Q k s →
+      ∃ ds s', tryLoop md5 P cfg h (ipmbEncode h data) fuel s c =
+          (s', { c with s := { c.s with seq := seqAfter (k + 1) c.s.seq } }, ds, .ok (0 :: rdata)) ∧
+        ds.length = k + 1 ∧ Chain md5 cfg.pw a b.sid c.s.seq ds ∧ (∀ d ∈ ds, Carries d cmd data) ∧
+        π s' = { π s with phase := ph (seqAfter (k + 1) c.s.seq), outSeq := nextSeq (π s).outSeq } ∧ Q s' := by
+  induction k with
+  | zero =>
+    intro fuel s c last hf live hl
+    obtain ⟨n, rfl⟩ : ∃ n, fuel = n + 1 := ⟨fuel - 1, by omega⟩
+    obtain ⟨d, r, h1, h2, h3, h4, _, h6⟩ := bmc_inSession md5 hmd5 b cfg conf (π s) c h a last cmd data rdata ph hh ha
+      live hlen hcmd (hin (π s))
+    obtain ⟨r1, r2⟩ := relay_reply rel s hl.1 d r _ h4
+    refine ⟨[d], (P s d).1, tryLoop_answered md5 P cfg h _ n s c _ d _ h1 (by rw [r2]; exact h6), rfl, ⟨h2, trivial⟩, ?_,
+      r1, hl.2 d⟩
+    intro x hx; simp at hx; subst hx; exact h3
+  | succ k ih =>
+    intro fuel s c last hf live hl
+    obtain ⟨n, rfl⟩ : ∃ n, fuel = n + 1 := ⟨fuel - 1, by omega⟩
+    obtain ⟨d, r, h1, h2, h3, _, h5, _⟩ := bmc_inSession md5 hmd5 b cfg conf (π s) c h a last cmd data rdata ph hh ha
+      live hlen hcmd (hin (π s))
+    obtain ⟨r1, r2⟩ := relay_lost rel s hl.1 d r _ h5
+    have live' : Live b cfg a (some (nextSeq c.s.seq)) (π (P s d).1) { c with s := { c.s with seq := nextSeq c.s.seq } } :=
+      ⟨by rw [r1], by rw [r1]; exact live.outSeq, live.attached, live.auth, live.sid, live.act, live.pw, rfl,
+        nextSeq_lt _ live.seqLt⟩
+    obtain ⟨ds, s', i1, i2, i3, i4, i5, i6⟩ := ih n (P s d).1 _ _ (by omega) live' (hl.2 d)
+    refine ⟨d :: ds, s', ?_, by simp [i2], ⟨h2, i3⟩, ?_, ?_, i6⟩
+    · rw [tryLoop_lost md5 P cfg h _ n s c _ d h1 r2, i1]
+      rfl
+    · intro x hx
+      rcases List.mem_cons.mp hx with e | e
+      · subst e; exact h3
+      · exact i4 x e
+    · rw [i5, r1]; rfl
+
+/-! ### the steps of the life cycle -/
+
+include rel in
+theorem run_ping (s : σ) (hl : lostAt s = false) (hph : (π s).phase = .start) :
+    ping P s = ((P s pingD).1, [pingD], .ok ()) ∧ π (P s pingD).1 = { π s with phase := .pinged } := by
+  have h := bmc_ping md5 b (π s) hph
+  obtain ⟨r1, r2⟩ := relay_reply rel s hl pingD _ _ h
+  exact ⟨by rw [ping_reply P s _ r2, pong_ok], r1⟩
+
+include hmd5 conf rel in
+theorem run_authCap (s : σ) (c : Client) (Q : σ → Prop) (k : Nat) (hk : k ≤ cfg.maxRetries)
+    (hl : LossRun P lostAt Q k s) (hph : (π s).phase = .pinged) (hat : c.attached = false) :
+    ∃ ds s', ds.length = k + 1 ∧ (∀ d ∈ ds, OutsideSession d ∧ Carries d 56 [0x0e, cfg.priv]) ∧
+      π s' = { π s with phase := .capsSent } ∧ Q s' ∧
       ∀ sent, estabAuthCap md5 P cfg sent s c =
-        estabChallenge md5 P cfg (sent ++ [(.authCap, d)]) (P s d).1 { c with rqSeq := (c.rqSeq + 1) % 64 }
+        estabChallenge md5 P cfg (sent ++ tagAll .authCap ds) s' { c with rqSeq := (c.rqSeq + 1) % 64 }
           [[1], [b.caps % 64], [0], [0], [0, 0, 0], [0]] := by
-  obtain ⟨d, p, h1, h2, h3, h4, h5, h6, h7, h8⟩ := bmc_authCap md5 hmd5 b cfg conf (π s) c hph hat
-  obtain ⟨r1, r2⟩ := relay_reply ht s hans d _ _ h7
-  refine ⟨d, p, h2, h3, h4, h5, h6, by rw [h7]; rfl, r1, ?_⟩
+  obtain ⟨ds, s', c', h1, h2, h3, h4, h5, h6⟩ := loop_static rel (cfg := cfg) (hdrOf cfg c 56)
+    (ipmbEncode (hdrOf cfg c 56) [0x0e, cfg.priv % 16]) [0, 1, b.caps % 64, 0, 0, 0, 0, 0, 0] (π s)
+    { π s with phase := .capsSent } (fun c' => c' = { c with rqSeq := (c.rqSeq + 1) % 64 })
+    (fun d => OutsideSession d ∧ Carries d 56 [0x0e, cfg.priv])
+    (by
+      intro c' hc'
+      subst hc'
+      obtain ⟨d, r, g1, g2, g3, g4, g5, g6⟩ := bmc_authCap md5 hmd5 b cfg conf (π s)
+        { c with rqSeq := (c.rqSeq + 1) % 64 } (hdrOf cfg c 56) (bmcHdr_hdrOf cfg c 56 conf.rsSa) hph hat
+      exact ⟨d, r, _, g1, rfl, ⟨g2, g3⟩, g4, g5, g6⟩)
+    Q k (cfg.maxRetries + 1) s _ (by omega) rfl rfl hl
+  subst h4
+  refine ⟨ds, s', h2, h3, h5, h6, ?_⟩
   intro sent
-  have hex := exchange_of_tx md5 P cfg s c _ _ d 6 0 56 _ h1
-  rw [r2, h8] at hex
-  simp only [estabAuthCap, Gen.RmcpFormats.netfnApp, Gen.RmcpFormats.cmdGetAuthCap, hex, decode_authCap, tagAll, List.map]
+  simp only [estabAuthCap, Gen.RmcpFormats.netfnApp, Gen.RmcpFormats.cmdGetAuthCap, exchange_eq, h1, decode_authCap]
 
-theorem run_challenge (s : σ) (c : Client) (a : Nat) (sup : List (List Nat)) (hans : Answers md5 b P π s)
+include hmd5 conf rel in
+theorem run_challenge (s : σ) (c : Client) (a : Nat) (sup : List (List Nat)) (Q : σ → Prop) (k : Nat)
+    (hk : k ≤ cfg.maxRetries) (hl : LossRun P lostAt Q k s)
     (hph : (π s).phase = .capsSent) (hat : c.attached = false)
     (hsup : (sup.getD 1 []).getD 0 0 = b.caps % 64)
     (hch : chooseAuth cfg.pref (b.caps % 64) = some a) (ha : a = 0 ∨ a = 4 ∨ a = 2)
     (hoff : offered b.caps a = true) :
-    ∃ d p, parseLan d = some p ∧ p.auth = 0 ∧ p.sid = 0 ∧ p.seq = 0 ∧
-      parseIpmiReq p.payload = some (reqOf (hdrOf cfg c 57) (a :: pad16 cfg.user)) ∧
-      (step md5 b (π s) d).2.isReply = true ∧
-      π (P s d).1 = { π s with phase := .challenged a } ∧
+    ∃ ds s', ds.length = k + 1 ∧ (∀ d ∈ ds, OutsideSession d ∧ Carries d 57 (a :: pad16 cfg.user)) ∧
+      π s' = { π s with phase := .challenged a } ∧ Q s' ∧
       ∀ sent, estabChallenge md5 P cfg sent s c sup =
-        estabActivate md5 P cfg (sent ++ [(.challenge, d)]) (P s d).1
+        estabActivate md5 P cfg (sent ++ tagAll .challenge ds) s'
           { c with rqSeq := (c.rqSeq + 1) % 64, s := { c.s with auth := a } }
           [leBytes 4 b.tempSid, b.challenge] := by
-  obtain ⟨d, p, h1, h2, h3, h4, h5, h6, h7, h8⟩ :=
-    bmc_challenge md5 hmd5 b cfg conf (π s) { c with s := { c.s with auth := a } } a ha hoff hph hat
-  obtain ⟨r1, r2⟩ := relay_reply ht s hans d _ _ h7
-  refine ⟨d, p, h2, h3, h4, h5, h6, by rw [h7]; rfl, r1, ?_⟩
+  obtain ⟨ds, s', c', h1, h2, h3, h4, h5, h6⟩ := loop_static rel (cfg := cfg) (hdrOf cfg c 57)
+    (ipmbEncode (hdrOf cfg c 57) ([a % 16] ++ userField cfg.user)) (0 :: (leBytes 4 b.tempSid ++ b.challenge)) (π s)
+    { π s with phase := .challenged a }
+    (fun c' => c' = { c with rqSeq := (c.rqSeq + 1) % 64, s := { c.s with auth := a } })
+    (fun d => OutsideSession d ∧ Carries d 57 (a :: pad16 cfg.user))
+    (by
+      intro c' hc'
+      subst hc'
+      obtain ⟨d, r, g1, g2, g3, g4, g5, g6⟩ := bmc_challenge md5 hmd5 b cfg conf (π s)
+        { c with rqSeq := (c.rqSeq + 1) % 64, s := { c.s with auth := a } } (hdrOf cfg c 57) a
+        (bmcHdr_hdrOf cfg c 57 conf.rsSa) ha hoff hph hat
+      exact ⟨d, r, _, g1, rfl, ⟨g2, g3⟩, g4, g5, g6⟩)
+    Q k (cfg.maxRetries + 1) s _ (by omega) rfl rfl hl
+  subst h4
+  refine ⟨ds, s', h2, h3, h5, h6, ?_⟩
   intro sent
-  have hex := exchange_of_tx md5 P cfg s _ _ _ d 6 0 57 _ h1
-  rw [r2, h8] at hex
+  have e : hdrOf cfg { c with s := { c.s with auth := a } } 57 = hdrOf cfg c 57 := rfl
   simp only [estabChallenge, hsup, hch, Option.getD_some, Gen.RmcpFormats.netfnApp, Gen.RmcpFormats.cmdGetChallenge,
-    hex, decode_challenge _ _ conf.chalLen, tagAll, List.map]
+    exchange_eq, e, h1, decode_challenge _ _ conf.chalLen]
 
-theorem run_activate (s : σ) (c : Client) (a : Nat) (hans : Answers md5 b P π s)
-    (hph : (π s).phase = .challenged a) (ha : a = 0 ∨ a = 4 ∨ a = 2)
+include hmd5 conf rel in
+theorem run_activate (s : σ) (c : Client) (a : Nat) (Q : σ → Prop) (k : Nat) (hk : k ≤ cfg.maxRetries)
+    (hl : LossRun P lostAt Q k s) (hph : (π s).phase = .challenged a) (ha : a = 0 ∨ a = 4 ∨ a = 2)
     (hca : c.s.auth = a) (hcp : c.s.pw = cfg.pw) (hcq : c.s.seq < 4294967296) :
-    ∃ d p, parseLan d = some p ∧ p.auth = a ∧ p.sid = b.tempSid ∧ codeOk md5 cfg.pw p = true ∧
-      parseIpmiReq p.payload = some (reqOf (hdrOf cfg c 58) ([a, cfg.priv] ++ b.challenge ++ leBytes 4 cfg.outSeq)) ∧
-      (step md5 b (π s) d).2.isReply = true ∧
-      π (P s d).1 = { π s with phase := .active a none, outSeq := nextSeq cfg.outSeq } ∧
+    ∃ ds s', ds.length = k + 1 ∧
+      (∀ d ∈ ds, (∃ p, parseLan d = some p ∧ p.auth = a ∧ p.sid = b.tempSid ∧ codeOk md5 cfg.pw p = true) ∧
+        Carries d 58 ([a, cfg.priv] ++ b.challenge ++ leBytes 4 cfg.outSeq)) ∧
+      π s' = { π s with phase := .active a none, outSeq := nextSeq cfg.outSeq } ∧ Q s' ∧
       ∀ sent, estabActivate md5 P cfg sent s c [leBytes 4 b.tempSid, b.challenge] =
-        estabSetPriv md5 P cfg (sent ++ [(.activate, d)]) (P s d).1
+        estabSetPriv md5 P cfg (sent ++ tagAll .activate ds) s'
           { attached := true, s := ⟨a, b.sid, b.inSeq0, true, cfg.pw⟩, rqSeq := (c.rqSeq + 1) % 64 } := by
   have htmp : leVal (leBytes 4 b.tempSid) = b.tempSid := leVal_leBytes 4 _ conf.tempSid
-  obtain ⟨d, p, h1, h2, h3, h4, h5, h6, h7, h8⟩ :=
-    bmc_activate md5 hmd5 b cfg conf (π s) ⟨true, ⟨a, b.tempSid, c.s.seq, c.s.activated, cfg.pw⟩, c.rqSeq⟩ a ha hph rfl
-      rfl rfl rfl hcq
-  obtain ⟨r1, r2⟩ := relay_reply ht s hans d _ _ h7
-  refine ⟨d, p, h2, h3, h4, h5, h6, by rw [h7]; rfl, r1, ?_⟩
+  obtain ⟨ds, s', c', h1, h2, h3, h4, h5, h6⟩ := loop_static rel (cfg := cfg) (hdrOf cfg c 58)
+    (ipmbEncode (hdrOf cfg c 58) ([a % 16, cfg.priv % 16] ++ b.challenge ++ leBytes 4 cfg.outSeq))
+    (0 :: ([a] ++ leBytes 4 b.sid ++ leBytes 4 b.inSeq0 ++ [b.priv])) (π s)
+    { π s with phase := .active a none, outSeq := nextSeq cfg.outSeq }
+    (Activating b cfg a ((c.rqSeq + 1) % 64))
+    (fun d => (∃ p, parseLan d = some p ∧ p.auth = a ∧ p.sid = b.tempSid ∧ codeOk md5 cfg.pw p = true) ∧
+        Carries d 58 ([a, cfg.priv] ++ b.challenge ++ leBytes 4 cfg.outSeq))
+    (by
+      intro c' hc'
+      obtain ⟨d, r, c'', g1, g2, g3, g4, g5, g6, g7⟩ := bmc_activate md5 hmd5 b cfg conf (π s) c' (hdrOf cfg c 58) a _
+        (bmcHdr_hdrOf cfg c 58 conf.rsSa) ha hph hc'
+      exact ⟨d, r, c'', g1, g2, ⟨g3, g4⟩, g5, g6, g7⟩)
+    Q k (cfg.maxRetries + 1) s ⟨true, ⟨a, b.tempSid, c.s.seq, c.s.activated, cfg.pw⟩, (c.rqSeq + 1) % 64⟩ (by omega) rfl
+    ⟨rfl, rfl, rfl, rfl, hcq, rfl⟩ hl
+  refine ⟨ds, s', h2, h3, h5, h6, ?_⟩
   intro sent
-  have hex := exchange_of_tx md5 P cfg s _ _ _ d 6 0 58 _ h1
-  rw [r2, h8] at hex
-  simp only at hex
+  obtain ⟨at', ⟨a', sid', seq', act', pw'⟩, q'⟩ := c'
+  obtain ⟨e1, e2, _, e4, _, e6⟩ := h4
+  simp only at e1 e2 e4 e6
+  subst e1 e2 e4 e6
+  simp only [hdrOf] at h1
   simp only [estabActivate, List.getD_cons_zero, List.getD_cons_succ, htmp, Gen.RmcpFormats.netfnApp,
-    Gen.RmcpFormats.cmdActivate, hca, hcp, hex, decode_activate, tagAll, List.map, leVal_leBytes 4 _ conf.sid,
+    Gen.RmcpFormats.cmdActivate, exchange_eq, hdrOf, hca, hcp, h1, decode_activate, leVal_leBytes 4 _ conf.sid,
     leVal_leBytes 4 _ conf.inSeq]
 
-/-- any of the three in-session commands: one exchange -/
-theorem run_inSession (s : σ) (c : Client) (a : Nat) (last : Option Nat) (hans : Answers md5 b P π s)
-    (ha : a = 0 ∨ a = 4 ∨ a = 2) (live : Live b cfg a last (π s) c) (cmd : Nat) (data rdata : List Nat)
-    (ph : Nat → Phase) (hlen : data.length + 7 ≤ 255) (hcmd : cmd ≠ 52)
-    (hin : ∀ seq, inSession md5 b (π s) a seq (reqOf (hdrOf cfg c cmd) data) =
-      ({ π s with phase := ph seq, outSeq := nextSeq (π s).outSeq },
-       .reply (lanPacket md5 a b.pw b.sid (π s).outSeq (ipmiRsp (reqOf (hdrOf cfg c cmd) data) 0 rdata)))) :
-    ∃ d p, parseLan d = some p ∧ p.auth = a ∧ p.sid = b.sid ∧ p.seq = nextSeq c.s.seq ∧
-      codeOk md5 cfg.pw p = true ∧ parseIpmiReq p.payload = some (reqOf (hdrOf cfg c cmd) data) ∧
-      (step md5 b (π s) d).2.isReply = true ∧
-      π (P s d).1 = { π s with phase := ph (nextSeq c.s.seq), outSeq := nextSeq (π s).outSeq } ∧
-      exchange md5 P cfg s c 6 0 cmd data =
-        ((P s d).1, { c with rqSeq := (c.rqSeq + 1) % 64, s := { c.s with seq := nextSeq c.s.seq } }, [d],
-         .ok (0 :: rdata)) := by
-  obtain ⟨d, p, h1, h2, h3, h4, h5, h6, h7, h8⟩ := bmc_inSession md5 hmd5 b cfg conf (π s) c a last ha live cmd data hlen
-  rw [hin] at h8
-  obtain ⟨r1, r2⟩ := relay_reply ht s hans d _ _ h8
-  refine ⟨d, p, h2, h3, h4, h5, h6, h7, by rw [h8]; rfl, r1, ?_⟩
-  have hex := exchange_of_tx md5 P cfg s _ _ _ d 6 0 cmd _ h1
-  rw [r2] at hex
-  rw [hex, rxStep_reply md5 hmd5 cfg _ _ a b.pw b.sid _ 0 _ ha (by rw [conf.pw]; exact conf.pwLen) conf.sid
-    live.outSeq rfl (by simp [hdrOf]) (by simp [hdrOf]) (by simpa [hdrOf, cmdSendMessage] using hcmd)]
-
-omit hmd5 conf ht in
-/-- the session stays up over one more exchange -/
-theorem live_next (s : σ) (c : Client) (a : Nat) (last : Option Nat) (live : Live b cfg a last (π s) c)
-    (s' : σ) (hs' : π s' = { π s with phase := .active a (some (nextSeq c.s.seq)), outSeq := nextSeq (π s).outSeq }) :
-    Live b cfg a (some (nextSeq c.s.seq)) (π s')
-      { c with rqSeq := (c.rqSeq + 1) % 64, s := { c.s with seq := nextSeq c.s.seq } } := by
-  refine ⟨by rw [hs'], by rw [hs']; exact nextSeq_lt _ live.outSeq, live.attached, live.auth, live.sid, live.act,
-    live.pw, rfl, nextSeq_lt _ live.seqLt⟩
-
-omit hmd5 conf in
-theorem run_ping (s : σ) (hans : Answers md5 b P π s) (hph : (π s).phase = .start) :
-    ping P s = ((P s pingD).1, [pingD], .ok ()) ∧ (step md5 b (π s) pingD).2.isReply = true ∧
-      π (P s pingD).1 = { π s with phase := .pinged } := by
-  have h := bmc_ping md5 b (π s) hph
-  obtain ⟨r1, r2⟩ := relay_reply ht s hans pingD _ _ h
-  exact ⟨by rw [ping_reply P s _ r2, pong_ok], by rw [h]; rfl, r1⟩
-
-/-- Set Session Privilege Level: the first datagram inside the session -/
-theorem run_setPriv (s : σ) (c : Client) (a : Nat) (hans : Answers md5 b P π s)
-    (ha : a = 0 ∨ a = 4 ∨ a = 2) (live : Live b cfg a none (π s) c) :
-    ∃ d, SessionPacket md5 cfg.pw a b.sid (nextSeq b.inSeq0) d ∧ Carries d 59 [cfg.priv] ∧
-      (step md5 b (π s) d).2.isReply = true ∧
-      Live b cfg a (some (nextSeq b.inSeq0)) (π (P s d).1)
-        { c with rqSeq := (c.rqSeq + 1) % 64, s := { c.s with seq := nextSeq b.inSeq0 } } ∧
+include hmd5 conf rel in
+/-- Set Session Privilege Level: the first request inside the session -/
+theorem run_setPriv (s : σ) (c : Client) (a : Nat) (Q : σ → Prop) (k : Nat) (hk : k ≤ cfg.maxRetries)
+    (hl : LossRun P lostAt Q k s) (ha : a = 0 ∨ a = 4 ∨ a = 2) (live : Live b cfg a none (π s) c) :
+    ∃ ds s', ds.length = k + 1 ∧ Chain md5 cfg.pw a b.sid b.inSeq0 ds ∧ (∀ d ∈ ds, Carries d 59 [cfg.priv]) ∧ Q s' ∧
+      Live b cfg a (some (seqAfter (k + 1) b.inSeq0)) (π s')
+        { c with rqSeq := (c.rqSeq + 1) % 64, s := { c.s with seq := seqAfter (k + 1) b.inSeq0 } } ∧
+      (π s').bad = (π s).bad ∧
       ∀ sent, estabSetPriv md5 P cfg sent s c =
-        ⟨(P s d).1, { c with rqSeq := (c.rqSeq + 1) % 64, s := { c.s with seq := nextSeq b.inSeq0 } },
-         sent ++ [(.setPriv, d)], .ok []⟩ := by
+        ⟨s', { c with rqSeq := (c.rqSeq + 1) % 64, s := { c.s with seq := seqAfter (k + 1) b.inSeq0 } },
+         sent ++ tagAll .setPriv ds, .ok []⟩ := by
   have hp16 : cfg.priv % 16 = cfg.priv := Nat.mod_eq_of_lt conf.privLt
   have hseq : c.s.seq = b.inSeq0 := live.seq
-  obtain ⟨d, p, h1, h2, h3, h4, h5, h6, h7, h8, h9⟩ := run_inSession hmd5 conf ht s c a none hans ha live 59
-    [cfg.priv % 16] [cfg.priv % 16 % 16] (fun q => .active a (some q)) (by simp) (by decide)
-    (fun q => inSession_setPriv md5 b (π s) a q _ _ rfl rfl rfl)
-  rw [hseq] at h4 h8 h9
-  refine ⟨d, ⟨p, h1, h2, h3, h4, h5⟩, ⟨p, _, h1, h6, by simp [reqOf, hdrOf, conf.rsSa], rfl, rfl, by simp [reqOf, hp16]⟩,
-    h7, ?_, ?_⟩
-  · have := live_next s c a none live (P s d).1 (by rw [hseq]; exact h8)
-    rw [hseq] at this; exact this
+  have live1 : Live b cfg a none (π s) { c with rqSeq := (c.rqSeq + 1) % 64 } :=
+    ⟨live.phase, live.outSeq, live.attached, live.auth, live.sid, live.act, live.pw, live.seq, live.seqLt⟩
+  obtain ⟨ds, s', h1, h2, h3, h4, h5, h6⟩ := loop_session hmd5 conf rel (hdrOf cfg c 59) 59 [cfg.priv % 16]
+    [cfg.priv % 16 % 16] (fun q => .active a (some q)) a (bmcHdr_hdrOf cfg c 59 conf.rsSa) ha (by simp) (by decide)
+    (fun st q => inSession_setPriv md5 b st a q _ _ rfl rfl rfl) Q k (cfg.maxRetries + 1) s _ none (by omega) live1 hl
+  simp only [hseq, hp16] at h1 h3 h4 h5
+  refine ⟨ds, s', h2, h3, h4, h6, ?_, by rw [h5], ?_⟩
+  · exact ⟨by rw [h5], by rw [h5]; exact nextSeq_lt _ live.outSeq, live.attached, live.auth, live.sid, live.act,
+      live.pw, rfl, seqAfter_lt _ _ conf.inSeq⟩
   · intro sent
-    simp only [estabSetPriv, Gen.RmcpFormats.netfnApp, Gen.RmcpFormats.cmdSetPriv, h9, decode_setPriv, tagAll, List.map]
+    simp only [estabSetPriv, Gen.RmcpFormats.netfnApp, Gen.RmcpFormats.cmdSetPriv, exchange_eq, hp16, h1,
+      decode_setPriv]
 
+include hmd5 conf rel in
 /-- one Get Device ID request inside the session -/
-theorem run_request (s : σ) (c : Client) (a l : Nat) (hans : Answers md5 b P π s)
-    (ha : a = 0 ∨ a = 4 ∨ a = 2) (live : Live b cfg a (some l) (π s) c) :
-    ∃ d, SessionPacket md5 cfg.pw a b.sid (nextSeq l) d ∧ Carries d 1 [] ∧
-      (step md5 b (π s) d).2.isReply = true ∧
-      Live b cfg a (some (nextSeq l)) (π (P s d).1)
-        { c with rqSeq := (c.rqSeq + 1) % 64, s := { c.s with seq := nextSeq l } } ∧
+theorem run_request (s : σ) (c : Client) (a l : Nat) (Q : σ → Prop) (k : Nat) (hk : k ≤ cfg.maxRetries)
+    (hl : LossRun P lostAt Q k s) (ha : a = 0 ∨ a = 4 ∨ a = 2) (live : Live b cfg a (some l) (π s) c) :
+    ∃ ds s', ds.length = k + 1 ∧ Chain md5 cfg.pw a b.sid l ds ∧ (∀ d ∈ ds, Carries d 1 []) ∧ Q s' ∧
+      Live b cfg a (some (seqAfter (k + 1) l)) (π s')
+        { c with rqSeq := (c.rqSeq + 1) % 64, s := { c.s with seq := seqAfter (k + 1) l } } ∧
+      (π s').bad = (π s).bad ∧
       request md5 P cfg s c 6 0 1 [] =
-        ⟨(P s d).1, { c with rqSeq := (c.rqSeq + 1) % 64, s := { c.s with seq := nextSeq l } },
-         [(.request, d)], .ok (0 :: deviceIdData)⟩ := by
+        ⟨s', { c with rqSeq := (c.rqSeq + 1) % 64, s := { c.s with seq := seqAfter (k + 1) l } },
+         tagAll .request ds, .ok (0 :: deviceIdData)⟩ := by
   have hseq : c.s.seq = l := live.seq
-  obtain ⟨d, p, h1, h2, h3, h4, h5, h6, h7, h8, h9⟩ := run_inSession hmd5 conf ht s c a (some l) hans ha live 1
-    [] deviceIdData (fun q => .active a (some q)) (by simp) (by decide)
-    (fun q => inSession_getDeviceId md5 b (π s) a q _ rfl rfl)
-  rw [hseq] at h4 h8 h9
-  refine ⟨d, ⟨p, h1, h2, h3, h4, h5⟩, ⟨p, _, h1, h6, by simp [reqOf, hdrOf, conf.rsSa], rfl, rfl, rfl⟩, h7, ?_, ?_⟩
-  · have := live_next s c a (some l) live (P s d).1 (by rw [hseq]; exact h8)
-    rw [hseq] at this; exact this
-  · simp only [request, h9, tagAll, List.map]
+  have live1 : Live b cfg a (some l) (π s) { c with rqSeq := (c.rqSeq + 1) % 64 } :=
+    ⟨live.phase, live.outSeq, live.attached, live.auth, live.sid, live.act, live.pw, live.seq, live.seqLt⟩
+  obtain ⟨ds, s', h1, h2, h3, h4, h5, h6⟩ := loop_session hmd5 conf rel (hdrOf cfg c 1) 1 []
+    deviceIdData (fun q => .active a (some q)) a (bmcHdr_hdrOf cfg c 1 conf.rsSa) ha (by simp) (by decide)
+    (fun st q => inSession_getDeviceId md5 b st a q _ rfl rfl) Q k (cfg.maxRetries + 1) s _ (some l) (by omega) live1 hl
+  simp only [hseq] at h1 h3 h5
+  refine ⟨ds, s', h2, h3, h4, h6, ?_, by rw [h5], ?_⟩
+  · exact ⟨by rw [h5], by rw [h5]; exact nextSeq_lt _ live.outSeq, live.attached, live.auth, live.sid, live.act,
+      live.pw, rfl, seqAfter_lt _ _ (by rw [← hseq]; exact live.seqLt)⟩
+  · simp only [request, exchange_eq, h1]
 
+include hmd5 conf rel in
 /-- Close Session names the granted session id; the BMC closes -/
-theorem run_close (s : σ) (c : Client) (a l : Nat) (hans : Answers md5 b P π s)
-    (ha : a = 0 ∨ a = 4 ∨ a = 2) (live : Live b cfg a (some l) (π s) c) :
-    ∃ d, SessionPacket md5 cfg.pw a b.sid (nextSeq l) d ∧ Carries d 60 (leBytes 4 b.sid) ∧
-      (step md5 b (π s) d).2.isReply = true ∧
-      π (P s d).1 = { π s with phase := .closed, outSeq := nextSeq (π s).outSeq } ∧
+theorem run_close (s : σ) (c : Client) (a l : Nat) (Q : σ → Prop) (k : Nat) (hk : k ≤ cfg.maxRetries)
+    (hl : LossRun P lostAt Q k s) (ha : a = 0 ∨ a = 4 ∨ a = 2) (live : Live b cfg a (some l) (π s) c) :
+    ∃ ds s', ds.length = k + 1 ∧ Chain md5 cfg.pw a b.sid l ds ∧ (∀ d ∈ ds, Carries d 60 (leBytes 4 b.sid)) ∧ Q s' ∧
+      (π s').phase = .closed ∧ (π s').bad = (π s).bad ∧
       close md5 P cfg s c =
-        ⟨(P s d).1, { c with rqSeq := (c.rqSeq + 1) % 64, s := { c.s with seq := nextSeq l, activated := false } },
-         [(.close, d)], .ok []⟩ := by
+        ⟨s', { c with rqSeq := (c.rqSeq + 1) % 64,
+                      s := { c.s with seq := seqAfter (k + 1) l, activated := false } },
+         tagAll .close ds, .ok []⟩ := by
   have hseq : c.s.seq = l := live.seq
-  obtain ⟨d, p, h1, h2, h3, h4, h5, h6, h7, h8, h9⟩ := run_inSession hmd5 conf ht s c a (some l) hans ha live 60
-    (leBytes 4 c.s.sid) [] (fun _ => .closed) (by simp) (by decide)
-    (fun q => inSession_close md5 b (π s) a q _ rfl rfl (by simp [reqOf, live.sid]))
-  rw [hseq] at h4 h9
-  refine ⟨d, ⟨p, h1, h2, h3, h4, h5⟩, ⟨p, _, h1, h6, by simp [reqOf, hdrOf, conf.rsSa], rfl, rfl,
-    by simp [reqOf, live.sid]⟩, h7, h8, ?_⟩
-  simp only [close, live.act, Bool.true_eq_false, if_false, Gen.RmcpFormats.netfnApp, Gen.RmcpFormats.cmdClose, h9,
-    decode_close, tagAll, List.map]
+  have live1 : Live b cfg a (some l) (π s) { c with rqSeq := (c.rqSeq + 1) % 64 } :=
+    ⟨live.phase, live.outSeq, live.attached, live.auth, live.sid, live.act, live.pw, live.seq, live.seqLt⟩
+  obtain ⟨ds, s', h1, h2, h3, h4, h5, h6⟩ := loop_session hmd5 conf rel (hdrOf cfg c 60) 60 (leBytes 4 c.s.sid)
+    [] (fun _ => .closed) a (bmcHdr_hdrOf cfg c 60 conf.rsSa) ha (by simp) (by decide)
+    (fun st q => inSession_close md5 b st a q _ rfl rfl (by simp [reqOf, live.sid])) Q k (cfg.maxRetries + 1) s _
+    (some l) (by omega) live1 hl
+  simp only [hseq, live.sid] at h1 h3 h4 h5
+  refine ⟨ds, s', h2, h3, h4, h6, by rw [h5], by rw [h5], ?_⟩
+  simp only [close, live.act, Bool.true_eq_false, if_false, Gen.RmcpFormats.netfnApp, Gen.RmcpFormats.cmdClose,
+    exchange_eq, live.sid, h1, decode_close]
 
-/-- `n` requests in a row: every one is accepted, the sequence numbers form a chain -/
-theorem run_requestN (a : Nat) (ha : a = 0 ∨ a = 4 ∨ a = 2) (k n : Nat) :
-    ∀ (s : σ) (c : Client) (l : Nat), AnswersFor md5 b P π (n + k) s → Live b cfg a (some l) (π s) c →
-    ∃ ds, ds.length = n ∧ Chain md5 cfg.pw a b.sid l ds ∧ (∀ d ∈ ds, Carries d 1 []) ∧
-      (requestN md5 P cfg n s c).sent = ds.map (fun d => (Kind.request, d)) ∧
+include hmd5 conf rel in
+/-- `n` requests in a row, each losing at most `max_retries` datagrams: every datagram
+transmitted, retransmissions included, carries the next sequence number -/
+theorem run_requestN (R : Nat) (hR : R ≤ cfg.maxRetries) (a : Nat) (ha : a = 0 ∨ a = 4 ∨ a = 2) (m n : Nat) :
+    ∀ (s : σ) (c : Client) (l : Nat), Within P lostAt R (n + m) s → Live b cfg a (some l) (π s) c →
+    ∃ ds, n ≤ ds.length ∧ ds.length ≤ n * (R + 1) ∧ Chain md5 cfg.pw a b.sid l ds ∧
+      (∀ d ∈ ds, Carries d 1 []) ∧
+      (requestN md5 P cfg n s c).sent = tagAll .request ds ∧
       (requestN md5 P cfg n s c).outcome = .ok [] ∧
-      Accepts md5 b (π s) ds (π (requestN md5 P cfg n s c).peer) ∧
-      AnswersFor md5 b P π k (requestN md5 P cfg n s c).peer ∧
-      Live b cfg a (some (seqAfter n l)) (π (requestN md5 P cfg n s c).peer) (requestN md5 P cfg n s c).client := by
+      Within P lostAt R m (requestN md5 P cfg n s c).peer ∧
+      Live b cfg a (some (seqAfter ds.length l)) (π (requestN md5 P cfg n s c).peer) (requestN md5 P cfg n s c).client ∧
+      (π (requestN md5 P cfg n s c).peer).bad = (π s).bad := by
   induction n with
   | zero =>
-    intro s c l hk live
-    refine ⟨[], rfl, trivial, by simp, rfl, rfl, Accepts.nil _ _ _, by simpa [requestN] using hk, live⟩
+    intro s c l hw live
+    exact ⟨[], by simp, by simp, trivial, by simp, rfl, rfl, by simpa [requestN] using hw, live, rfl⟩
   | succ n ih =>
-    intro s c l hk live
-    have hk' : AnswersFor md5 b P π ((n + k) + 1) s := by
-      have e : n + 1 + k = n + k + 1 := by omega
-      rw [e] at hk; exact hk
-    obtain ⟨d, h1, h2, h3, h4, h5⟩ := run_request hmd5 conf ht s c a l hk'.1 ha live
-    obtain ⟨ds, i1, i2, i3, i4, i5, i6, i7, i8⟩ := ih (P s d).1 _ (nextSeq l) (hk'.2 d) h4
-    have hacc : Accepts md5 b (π s) [d] (π (P s d).1) := by
-      rw [tracks_step ht]; exact Accepts.one h3
-    refine ⟨d :: ds, by simp [i1], ⟨h1, i2⟩, ?_, ?_, ?_, ?_, ?_, ?_⟩
+    intro s c l hw live
+    have e : n + 1 + m = (n + m) + 1 := by omega
+    rw [e] at hw
+    obtain ⟨k, hk, hl⟩ := hw
+    obtain ⟨ds1, s', h1, h2, h3, h4, h5, h6, h7⟩ := run_request hmd5 conf rel s c a l _ k (by omega) hl ha live
+    obtain ⟨ds2, i1, i2, i3, i4, i5, i6, i7, i8, i9⟩ := ih s' _ (seqAfter (k + 1) l) h4 h5
+    refine ⟨ds1 ++ ds2, by simp [h1]; omega, ?_, Chain.append h2 (by rw [h1]; exact i3), ?_, ?_, ?_, ?_, ?_, ?_⟩
+    · simp only [List.length_append, h1]
+      have : (n + 1) * (R + 1) = n * (R + 1) + (R + 1) := Nat.succ_mul _ _
+      omega
     · intro x hx
-      rcases List.mem_cons.mp hx with e | e
-      · subst e; exact h2
-      · exact i3 x e
-    · simp only [requestN, Gen.RmcpFormats.netfnApp, Gen.RmcpFormats.cmdGetDeviceId, h5, i4, List.map, List.cons_append,
-        List.nil_append]
-    · simp only [requestN, Gen.RmcpFormats.netfnApp, Gen.RmcpFormats.cmdGetDeviceId, h5, i5]
-    · simp only [requestN, Gen.RmcpFormats.netfnApp, Gen.RmcpFormats.cmdGetDeviceId, h5]
-      exact Accepts.append hacc i6
-    · simp only [requestN, Gen.RmcpFormats.netfnApp, Gen.RmcpFormats.cmdGetDeviceId, h5]
+      rcases List.mem_append.mp hx with e | e
+      · exact h3 x e
+      · exact i4 x e
+    · simp only [requestN, Gen.RmcpFormats.netfnApp, Gen.RmcpFormats.cmdGetDeviceId, h7, i5, tagAll, List.map_append]
+    · simp only [requestN, Gen.RmcpFormats.netfnApp, Gen.RmcpFormats.cmdGetDeviceId, h7, i6]
+    · simp only [requestN, Gen.RmcpFormats.netfnApp, Gen.RmcpFormats.cmdGetDeviceId, h7]
       exact i7
-    · simp only [requestN, Gen.RmcpFormats.netfnApp, Gen.RmcpFormats.cmdGetDeviceId, h5]
+    · simp only [requestN, Gen.RmcpFormats.netfnApp, Gen.RmcpFormats.cmdGetDeviceId, h7]
+      rw [List.length_append, h1, seqAfter_add]
       exact i8
+    · simp only [requestN, Gen.RmcpFormats.netfnApp, Gen.RmcpFormats.cmdGetDeviceId, h7]
+      rw [i9, h6]
 
 end stages
+
+/-! ### the whole handshake, the whole life cycle -/
+
+/-- What a successful handshake put on the wire, step by step (`ds1` … `ds4`: the datagrams of
+Get Channel Authentication Capabilities, Get Session Challenge, Activate Session and Set Session
+Privilege Level, retransmissions included; at most `R + 1` each). -/
+structure Handshake (md5 : List Nat → List Nat) (b : BmcCfg) (cfg : Cfg) (R a : Nat)
+    (sent : Sent) (ds1 ds2 ds3 ds4 : List (List Nat)) : Prop where
+  sent : sent = (.ping, pingD) :: (tagAll .authCap ds1 ++ tagAll .challenge ds2 ++ tagAll .activate ds3 ++
+    tagAll .setPriv ds4)
+  len1 : 1 ≤ ds1.length ∧ ds1.length ≤ R + 1
+  len2 : 1 ≤ ds2.length ∧ ds2.length ≤ R + 1
+  len3 : 1 ≤ ds3.length ∧ ds3.length ≤ R + 1
+  len4 : 1 ≤ ds4.length ∧ ds4.length ≤ R + 1
+  authCap : ∀ d ∈ ds1, OutsideSession d ∧ Carries d 56 [0x0e, cfg.priv]
+  challenge : ∀ d ∈ ds2, OutsideSession d ∧ Carries d 57 (a :: pad16 cfg.user)
+  activate : ∀ d ∈ ds3, (∃ p, parseLan d = some p ∧ p.auth = a ∧ p.sid = b.tempSid ∧ codeOk md5 cfg.pw p = true) ∧
+    Carries d 58 ([a, cfg.priv] ++ b.challenge ++ leBytes 4 cfg.outSeq)
+  setPrivChain : Chain md5 cfg.pw a b.sid b.inSeq0 ds4
+  setPriv : ∀ d ∈ ds4, Carries d 59 [cfg.priv]
+
+section whole
+variable {σ : Type} {md5 : List Nat → List Nat} (hmd5 : ∀ x, (md5 x).length = 16) {b : BmcCfg} {cfg : Cfg}
+  (conf : Conforming b cfg) {P : σ → List Nat → σ × Option (List Nat)} {π : σ → BmcState} {lostAt : σ → Bool}
+  (rel : Relay md5 b P π lostAt)
+include hmd5 conf rel
+
+theorem establish_run (R : Nat) (hR : R ≤ cfg.maxRetries) (m : Nat) (s0 : σ) (c0 : Client) (a : Nat)
+    (hl0 : lostAt s0 = false)
+    (hw : ∀ d, Within P lostAt R (4 + m) (P s0 d).1) (hph : (π s0).phase = .start)
+    (hch : chooseAuth cfg.pref (b.caps % 64) = some a) (ha : a = 0 ∨ a = 4 ∨ a = 2) (hoff : offered b.caps a = true)
+    (hcp : c0.s.pw = cfg.pw) (hcq : c0.s.seq < 4294967296) :
+    ∃ ds1 ds2 ds3 ds4, Handshake md5 b cfg R a (establish md5 P cfg s0 c0).sent ds1 ds2 ds3 ds4 ∧
+      (establish md5 P cfg s0 c0).outcome = .ok [] ∧
+      Live b cfg a (some (seqAfter ds4.length b.inSeq0)) (π (establish md5 P cfg s0 c0).peer)
+        (establish md5 P cfg s0 c0).client ∧
+      (π (establish md5 P cfg s0 c0).peer).bad = (π s0).bad ∧
+      Within P lostAt R m (establish md5 P cfg s0 c0).peer := by
+  obtain ⟨p0, p1⟩ := run_ping rel s0 hl0 hph
+  have hw0 := hw pingD
+  have e4 : 4 + m = (3 + m) + 1 := by omega
+  rw [e4] at hw0
+  obtain ⟨k1, hk1, hl1⟩ := hw0
+  obtain ⟨ds1, s1, a1, a2, a3, a4, a5⟩ := run_authCap hmd5 conf rel (P s0 pingD).1 { c0 with attached := false } _ k1
+    (by omega) hl1 (by rw [p1]) rfl
+  have e3 : 3 + m = (2 + m) + 1 := by omega
+  rw [e3] at a4
+  obtain ⟨k2, hk2, hl2⟩ := a4
+  obtain ⟨ds2, s2, b1, b2, b3, b4, b5⟩ := run_challenge hmd5 conf rel s1
+    { attached := false, s := c0.s, rqSeq := (c0.rqSeq + 1) % 64 } a
+    [[1], [b.caps % 64], [0], [0], [0, 0, 0], [0]] _ k2 (by omega) hl2 (by rw [a3]) rfl rfl hch ha hoff
+  have e2 : 2 + m = (1 + m) + 1 := by omega
+  rw [e2] at b4
+  obtain ⟨k3, hk3, hl3⟩ := b4
+  obtain ⟨ds3, s3, c1, c2, c3, c4, c5⟩ := run_activate hmd5 conf rel s2
+    { attached := false, s := { c0.s with auth := a }, rqSeq := ((c0.rqSeq + 1) % 64 + 1) % 64 } a _ k3 (by omega) hl3
+    (by rw [b3]) ha rfl hcp hcq
+  have e1 : 1 + m = m + 1 := by omega
+  rw [e1] at c4
+  obtain ⟨k4, hk4, hl4⟩ := c4
+  have live3 : Live b cfg a none (π s3)
+      { attached := true, s := ⟨a, b.sid, b.inSeq0, true, cfg.pw⟩, rqSeq := (((c0.rqSeq + 1) % 64 + 1) % 64 + 1) % 64 } :=
+    ⟨by rw [c3], by rw [c3]; exact nextSeq_lt _ conf.outSeqLt, rfl, rfl, rfl, rfl, rfl, rfl, conf.inSeq⟩
+  obtain ⟨ds4, s4, d1, d2, d3, d4, d5, d6, d7⟩ := run_setPriv hmd5 conf rel s3 _ a _ k4 (by omega) hl4 ha live3
+  have hest : establish md5 P cfg s0 c0 =
+      ⟨s4, { attached := true, s := ⟨a, b.sid, seqAfter (k4 + 1) b.inSeq0, true, cfg.pw⟩,
+             rqSeq := ((((c0.rqSeq + 1) % 64 + 1) % 64 + 1) % 64 + 1) % 64 },
+       tagAll .ping [pingD] ++ tagAll .authCap ds1 ++ tagAll .challenge ds2 ++ tagAll .activate ds3 ++
+         tagAll .setPriv ds4, .ok []⟩ := by
+    simp only [establish, p0]
+    rw [a5, b5, c5, d7]
+  refine ⟨ds1, ds2, ds3, ds4, ?_, by rw [hest], ?_, ?_, ?_⟩
+  · refine ⟨?_, ⟨by omega, by omega⟩, ⟨by omega, by omega⟩, ⟨by omega, by omega⟩, ⟨by omega, by omega⟩, a2, b2, c2, d2, d3⟩
+    rw [hest]
+    simp [tagAll]
+  · rw [hest, d1]; exact d5
+  · rw [hest]
+    simp only
+    rw [d6, c3, b3, a3, p1]
+  · rw [hest]; exact d4
+
+/-- The life cycle against a peer that relays a conforming BMC and loses at most `max_retries`
+datagrams per request: it completes; the datagrams inside the session — Set Session Privilege
+Level, the `n` requests, Close Session, every retransmission included — form one chain of
+sequence numbers from the assigned initial value. -/
+theorem lifecycle_run (R : Nat) (hR : R ≤ cfg.maxRetries) (n : Nat) (s0 : σ) (c0 : Client) (a : Nat)
+    (hl0 : lostAt s0 = false)
+    (hw : ∀ d, Within P lostAt R (n + 5) (P s0 d).1) (hph : (π s0).phase = .start)
+    (hch : chooseAuth cfg.pref (b.caps % 64) = some a) (ha : a = 0 ∨ a = 4 ∨ a = 2) (hoff : offered b.caps a = true)
+    (hcp : c0.s.pw = cfg.pw) (hcq : c0.s.seq < 4294967296) :
+    ∃ hs ds1 ds2 ds3 ds4 dsr dsc, Handshake md5 b cfg R a hs ds1 ds2 ds3 ds4 ∧
+      (lifecycle md5 P cfg n s0 c0).sent = hs ++ tagAll .request dsr ++ tagAll .close dsc ∧
+      (lifecycle md5 P cfg n s0 c0).outcome = .ok [] ∧
+      (π (lifecycle md5 P cfg n s0 c0).peer).phase = .closed ∧
+      (π (lifecycle md5 P cfg n s0 c0).peer).bad = (π s0).bad ∧
+      (lifecycle md5 P cfg n s0 c0).client.s.activated = false ∧
+      Chain md5 cfg.pw a b.sid b.inSeq0 (ds4 ++ dsr ++ dsc) ∧
+      (n ≤ dsr.length ∧ dsr.length ≤ n * (R + 1)) ∧
+      (1 ≤ dsc.length ∧ dsc.length ≤ R + 1) ∧
+      (∀ d ∈ dsr, Carries d 1 []) ∧ (∀ d ∈ dsc, Carries d 60 (leBytes 4 b.sid)) := by
+  have hw' : ∀ d, Within P lostAt R (4 + (n + 1)) (P s0 d).1 := by
+    intro d
+    have e : 4 + (n + 1) = n + 5 := by omega
+    rw [e]; exact hw d
+  obtain ⟨ds1, ds2, ds3, ds4, e1, e2, e3, e4, e5⟩ := establish_run hmd5 conf rel R hR (n + 1) s0 c0 a hl0 hw' hph hch ha
+    hoff hcp hcq
+  obtain ⟨dsr, r1, r2, r3, r4, r5, r6, r7, r8, r9⟩ := run_requestN hmd5 conf rel R hR a ha 1 n
+    (establish md5 P cfg s0 c0).peer (establish md5 P cfg s0 c0).client _ e5 e3
+  obtain ⟨k, hk, hl⟩ := r7
+  obtain ⟨dsc, s', q1, q2, q3, _, q5, q6, q7⟩ := run_close hmd5 conf rel _ _ a _ _ k (by omega) hl ha r8
+  refine ⟨_, ds1, ds2, ds3, ds4, dsr, dsc, e1, ?_, ?_, ?_, ?_, ?_, ?_, ⟨r1, r2⟩, ⟨by omega, by omega⟩, r4, q3⟩
+  · simp only [lifecycle, e2, r6, q7, r5]
+  · simp only [lifecycle, e2, r6, q7]
+  · simp only [lifecycle, e2, r6, q7]; exact q5
+  · simp only [lifecycle, e2, r6, q7]; rw [q6, r9, e4]
+  · simp only [lifecycle, e2, r6, q7]
+  · rw [List.append_assoc]
+    exact Chain.append e1.setPrivChain (Chain.append r3 q2)
+
+end whole
 
 end PyIpmi.Session
